@@ -98,6 +98,8 @@ M = [
  ('r2_addarg', 'semantic', 'lib/icinga/macroprocessor.cpp', 'if (add_key && separator.GetType() != ValueEmpty && add_value) {', 'if (add_key && separator.GetType() != ValueEmpty) {', 'key and separator are glued to a skipped value'),
  ('r2_addarg', 'harmless', 'lib/icinga/macroprocessor.cpp', '\t\tif (add_key)\n\t\t\targs->Add(key);\n\n\t\tif (add_value)\n\t\t\targs->Add(value);', '\t\tif (add_key) {\n\t\t\targs->Add(key);\n\t\t}\n\n\t\tif (!add_value)\n\t\t\treturn;\n\n\t\targs->Add(value);', 'early return instead of a guarded statement'),
  ('r2_emitarr', 'semantic', 'lib/icinga/macroprocessor.cpp', 'add_key = !arg.SkipKey && arg.RepeatKey;', 'add_key = arg.RepeatKey;', 'repeat_key overrides skip_key for the later elements'),
+ ('r2_sched', 'semantic', 'lib/checker/checkercomponent.cpp', 'if (host && service && (!checkable->GetEnableActiveChecks() || !icingaApp->GetEnableServiceChecks())) {', 'if (host && service && (!checkable->GetEnableActiveChecks() || !icingaApp->GetEnableHostChecks())) {', 'services follow the global host switch'),
+ ('r2_sched', 'harmless', 'lib/checker/checkercomponent.cpp', 'if (host && !service && (!checkable->GetEnableActiveChecks() || !icingaApp->GetEnableHostChecks())) {', 'if (!service && host && !(checkable->GetEnableActiveChecks() && icingaApp->GetEnableHostChecks())) {', 'reordered, De Morgan'),
  ('is_child_of', 'unrecognised', 'lib/remote/zone.cpp', '\tZone::Ptr azone = this;\n', '\tZone::Ptr azone = GetParent();\n', 'call outside the binding environment: degrades'),
 ]
 
